@@ -18,6 +18,7 @@ namespace Game
 @[simp] theorem event_setRaiser (g : Game) (i : Nat) : (g.setRaiser i).event = g.event := rfl
 @[simp] theorem event_setCw (g : Game) (x : Int) : (g.setCw x).event = g.event := rfl
 @[simp] theorem event_setPrev (g : Game) (x : Int) : (g.setPrev x).event = g.event := rfl
+@[simp] theorem event_recordBet (g : Game) (i : Nat) : (g.recordBet i).event = g.event := rfl
 @[simp] theorem event_addRoundPot (g : Game) (x : Int) : (g.addRoundPot x).event = g.event := rfl
 @[simp] theorem event_setCurrentPlayer (g : Game) (i : Nat) : (g.setCurrentPlayer i).event = g.event := rfl
 @[simp] theorem event_resetAllAllowed (g : Game) : g.resetAllAllowed.event = g.event := rfl
